@@ -1,7 +1,7 @@
 (** Lemmas about the sharded map and the cache wrapper: the invariant of every reachable cache,
     and the simulation of the cache by a list of fixed-length queues ([views]). *)
 From Coq Require Import List NArith PeanoNat Lia Bool Permutation ZifyN ZifyNat ZifyBool.
-From Verif Require Import Base.BStr Fifo.Ring Fifo.Ring_proofs Fifo.Sharded.
+From Verif Require Import Base.BStr Fifo.Ring Fifo.Ring_proofs Fifo.Sharded Fifo.FifoSpec.
 Import ListNotations.
 Local Open Scope nat_scope.
 
@@ -354,7 +354,6 @@ Proof.
 Qed.
 
 (** * every reachable cache satisfies the invariant *)
-Definition valid_cfg (sz n : nat) : Prop := 1 <= n /\ 2 * n <= sz.
 
 Record cache_inv (sz n : nat) (c : cache) : Prop := mkCacheInv {
   cv_size : maxsize c = sz;
@@ -403,8 +402,6 @@ Qed.
 Lemma run_app c ops1 ops2 : run c (ops1 ++ ops2) = run (run c ops1) ops2.
 Proof. unfold run. apply fold_left_app. Qed.
 
-Definition reachable (sz n : nat) (c : cache) : Prop :=
-  exists ops, Forall op_nonempty ops /\ c = run (new_cache sz n) ops.
 
 Lemma reachable_inv sz n c : valid_cfg sz n -> reachable sz n c -> cache_inv sz n c.
 Proof. intros Hv (ops & Hne & ->). apply run_inv; [apply new_cache_inv; exact Hv|exact Hne]. Qed.
@@ -515,14 +512,7 @@ Proof.
 Qed.
 
 (** * handlers: exactly once per insertion per registered handler *)
-Definition inserts (c : cache) (o : op) : bool :=
-  match o with
-  | OPut _ _ => true
-  | OHasOrAdd k _ => negb (cache_has k c)
-  | _ => false
-  end.
 
-Definition call_id (x : call) : hid := fst (fst (fst x)).
 
 Lemma calls_of_handler (hs : list (hid * N)) k v id :
   NoDup (map fst hs) ->
@@ -562,3 +552,401 @@ Lemma handlers_registry c id tag id' :
   aget id' (handlers (step_cache c (ORegister id tag))) = (if beqb id' id then Some tag else aget id' (handlers c)) /\
   aget id' (handlers (step_cache c (OUnregister id))) = (if beqb id' id then None else aget id' (handlers c)).
 Proof. unfold step_cache. cbn [step fst handlers]. split; [apply aget_aset|apply aget_adel]. Qed.
+
+(** * residency: a fresh entry enters at the back of a queue of length maxSize-1 *)
+
+
+
+Lemma insertions_in_le r ops : forall c, insertions_in r c ops <= insertions c ops.
+Proof.
+  induction ops as [|o ops IH]; intros c; cbn [insertions_in insertions]; [lia|].
+  specialize (IH (step_cache c o)). unfold inserts_in. destruct (inserts c o); cbn [andb]; [|lia].
+  destruct (match op_key o with Some k => _ | None => false end); lia.
+Qed.
+
+(** [k] sits in its queue with at most [j] entries behind it *)
+Definition resid (k : key) (j : nat) (c : cache) : Prop :=
+  exists a b, qat (cm c) k = a ++ k :: b /\ length b <= j.
+
+
+Lemma qat_after m c c' k k' x : cmap_inv m c ->
+  shardCount c' = shardCount c ->
+  views c' = set_nth (route (shardCount c) k') x (views c) ->
+  qat c' k = if route (shardCount c) k =? route (shardCount c) k' then x else qat c k.
+Proof.
+  intros H Hn Hv. rewrite !qat_views, Hv, Hn.
+  destruct (Nat.eqb_spec (route (shardCount c) k) (route (shardCount c) k')) as [E|E].
+  - rewrite E. apply nth_set_nth_same. rewrite views_length, (ci_len _ _ H). apply route_lt. apply (ci_n _ _ H).
+  - apply nth_set_nth_other. congruence.
+Qed.
+
+Lemma qat_length m c k : cmap_inv m c -> length (qat c k) = m - 1.
+Proof. intros H. destruct (get_shard_inv m c k H) as [Hs Hm]. unfold qat. rewrite view_length by exact Hs. lia. Qed.
+
+Lemma blank_split (k k' : key) (a b : list key) : k <> k' ->
+  blank k' (a ++ k :: b) = blank k' a ++ k :: blank k' b.
+Proof.
+  intros Hne. rewrite blank_app. cbn [blank map]. destruct (beqb_spec k k'); [congruence|reflexivity].
+Qed.
+
+Lemma resid_has sz n c k j : cache_inv sz n c -> k <> [] -> resid k j c -> cache_has k c = true.
+Proof.
+  intros Hc Hk (a & b & Hq & _). unfold cache_has. apply (cmap_has_qat _ _ k (cv_cm _ _ _ Hc) Hk).
+  rewrite Hq. apply in_app_iff. right. left. reflexivity.
+Qed.
+
+Lemma step_cache_hasoradd_cm c k v :
+  cm (step_cache c (OHasOrAdd k v)) = fst (cmap_set_if_absent k v (cm c)).
+Proof. unfold step_cache. cbn [step]. destruct (cmap_set_if_absent k v (cm c)); reflexivity. Qed.
+
+Lemma resid_step sz n c o k j : cache_inv sz n c -> k <> [] -> op_nonempty o -> keeps k o ->
+  resid k j c ->
+  j + (if inserts_in (route n k) c o then 1 else 0) <= shard_size sz n - 2 ->
+  resid k (j + (if inserts_in (route n k) c o then 1 else 0)) (step_cache c o).
+Proof.
+  intros Hc Hk Hne [Hkr Hkc] Hres Hj.
+  pose proof (cv_cm _ _ _ Hc) as Hcm. pose proof (cv_n _ _ _ Hc) as Hn.
+  pose proof (qat_length _ _ k Hcm) as Hlen.
+  assert (Hhas : cache_has k c = true) by (eapply resid_has; eauto).
+  destruct Hres as (a & b & Hq & Hb).
+  assert (Hweak : forall j', j <= j' -> resid k j' c) by (intros j' Hj'; exists a, b; split; [exact Hq|lia]).
+  unfold inserts_in in *. rewrite Hn in *.
+  destruct o as [k' v'|k' v'|k'|k'|k'|k'| |id tag|id]; cbn [inserts op_key andb] in *;
+    try (rewrite Nat.add_0_r; exists a, b; split; [exact Hq|exact Hb]).
+  - (* Put *)
+    cbn [op_nonempty op_key] in Hne.
+    assert (Hq' := qat_after _ (cm c) (cmap_set k' v' (cm c)) k k' _ Hcm eq_refl (views_set _ _ k' v' Hcm Hne)).
+    rewrite Hn in Hq'. unfold resid, step_cache. cbn [step fst cm].
+    destruct (beqb_spec k' k) as [->|Hkk].
+    + rewrite Nat.eqb_refl in *. rewrite Hq'. exists (tl (blank k (qat (cm c) k))), []. split; [reflexivity|cbn; lia].
+    + rewrite (Nat.eqb_sym (route n k') (route n k)) in *.
+      destruct (route n k =? route n k') eqn:Er.
+      * apply Nat.eqb_eq in Er. rewrite Hq'.
+        assert (Eqq : qat (cm c) k' = qat (cm c) k) by (rewrite !qat_views, Hn, Er; reflexivity).
+        rewrite Eqq, Hq. unfold q_set, q_push. rewrite blank_split by congruence.
+        rewrite Hq, app_length in Hlen. cbn [length] in Hlen.
+        destruct (blank k' a) as [|x a'] eqn:Ea.
+        { assert (length a = 0) by (rewrite <- (blank_length k' a), Ea; reflexivity). lia. }
+        cbn [app tl]. exists a', (blank k' b ++ [k']). split.
+        { rewrite <- app_assoc. reflexivity. }
+        { rewrite app_length, blank_length. cbn [length]. lia. }
+      * rewrite Hq', Nat.add_0_r. exists a, b. split; [exact Hq|exact Hb].
+  - (* HasOrAdd *)
+    cbn [op_nonempty op_key] in Hne.
+    destruct (views_set_if_absent _ (cm c) k' v' Hcm) as [Hp Ha].
+    destruct (cache_has k' c) eqn:Eh; cbn [negb andb] in *.
+    + destruct (hasoradd_spec sz n c k' v' Hc Hne) as [Hsame _].
+      unfold step_cache. rewrite (Hsame Eh). cbn [fst]. rewrite Nat.add_0_r. exists a, b. split; [exact Hq|exact Hb].
+    + assert (Hkk : k' <> k) by (intros ->; congruence).
+      destruct (Ha Eh) as [_ Hv].
+      assert (Hsc : shardCount (fst (cmap_set_if_absent k' v' (cm c))) = shardCount (cm c)).
+      { destruct (cmap_set_if_absent_fst k' v' (cm c)) as [-> _]. reflexivity. }
+      assert (Hq' := qat_after _ (cm c) _ k k' _ Hcm Hsc Hv). rewrite Hn in Hq'.
+      unfold resid. rewrite step_cache_hasoradd_cm.
+      rewrite (Nat.eqb_sym (route n k') (route n k)) in *.
+      destruct (route n k =? route n k') eqn:Er.
+      * apply Nat.eqb_eq in Er. rewrite Hq'.
+        assert (Eqq : qat (cm c) k' = qat (cm c) k) by (rewrite !qat_views, Hn, Er; reflexivity).
+        rewrite Eqq, Hq. unfold q_push.
+        rewrite Hq, app_length in Hlen. cbn [length] in Hlen.
+        destruct a as [|x a'].
+        { cbn [length] in Hlen. lia. }
+        cbn [app tl]. exists a', (b ++ [k']). split.
+        { rewrite <- app_assoc. reflexivity. }
+        { rewrite app_length. cbn [length]. lia. }
+      * rewrite Hq', Nat.add_0_r. exists a, b. split; [exact Hq|exact Hb].
+  - (* Remove of another key *)
+    assert (Hkk : k' <> k) by (intros ->; apply Hkr; reflexivity).
+    assert (Hq' := qat_after _ (cm c) (cmap_remove k' (cm c)) k k' _ Hcm eq_refl (views_remove _ _ k' Hcm)).
+    rewrite Hn in Hq'. unfold resid, step_cache. cbn [step fst cm]. rewrite Nat.add_0_r.
+    destruct (route n k =? route n k') eqn:Er.
+    + apply Nat.eqb_eq in Er. rewrite Hq'.
+      assert (Eqq : qat (cm c) k' = qat (cm c) k) by (rewrite !qat_views, Hn, Er; reflexivity).
+      rewrite Eqq, Hq, blank_split by congruence.
+      exists (blank k' a), (blank k' b). split; [reflexivity|rewrite blank_length; exact Hb].
+    + rewrite Hq'. exists a, b. split; [exact Hq|exact Hb].
+  - exfalso. apply Hkc. reflexivity.
+Qed.
+
+Lemma resid_run sz n k ops : k <> [] ->
+  forall c j, cache_inv sz n c -> Forall op_nonempty ops -> Forall (keeps k) ops ->
+  resid k j c ->
+  j + insertions_in (route n k) c ops <= shard_size sz n - 2 ->
+  resid k (j + insertions_in (route n k) c ops) (run c ops).
+Proof.
+  intros Hk. induction ops as [|o ops IH]; intros c j Hc Hne Hkeep Hres Hj.
+  - cbn [insertions_in run fold_left]. rewrite Nat.add_0_r. exact Hres.
+  - inversion Hne; subst. inversion Hkeep; subst. cbn [insertions_in] in *. cbn [run fold_left].
+    rewrite Nat.add_assoc. apply IH.
+    + apply step_inv; assumption.
+    + assumption.
+    + assumption.
+    + apply (resid_step sz n); auto. lia.
+    + lia.
+Qed.
+
+Lemma resid_after_insert sz n c o k v : cache_inv sz n c -> k <> [] ->
+  (o = OPut k v \/ (o = OHasOrAdd k v /\ cache_has k c = false)) ->
+  resid k 0 (step_cache c o).
+Proof.
+  intros Hc Hk Ho. pose proof (cv_cm _ _ _ Hc) as Hcm.
+  destruct Ho as [->|[-> Hh]].
+  - assert (Hq' := qat_after _ (cm c) (cmap_set k v (cm c)) k k _ Hcm eq_refl (views_set _ _ k v Hcm Hk)).
+    rewrite Nat.eqb_refl in Hq'. unfold resid, step_cache. cbn [step fst cm]. rewrite Hq'.
+    exists (tl (blank k (qat (cm c) k))), []. split; [reflexivity|apply le_n].
+  - destruct (views_set_if_absent _ (cm c) k v Hcm) as [_ Ha]. destruct (Ha Hh) as [_ Hv].
+    assert (Hsc : shardCount (fst (cmap_set_if_absent k v (cm c))) = shardCount (cm c)).
+    { destruct (cmap_set_if_absent_fst k v (cm c)) as [-> _]. reflexivity. }
+    assert (Hq' := qat_after _ (cm c) _ k k _ Hcm Hsc Hv). rewrite Nat.eqb_refl in Hq'.
+    unfold resid. rewrite step_cache_hasoradd_cm, Hq'.
+    exists (tl (qat (cm c) k)), []. split; [reflexivity|apply le_n].
+Qed.
+
+(** the residency theorem, per shard (insertions routed to the entry's shard) and per cache *)
+Lemma residency sz n ops1 o k v ops2 : valid_cfg sz n ->
+  Forall op_nonempty ops1 -> Forall op_nonempty ops2 -> k <> [] ->
+  let c0 := run (new_cache sz n) ops1 in
+  (o = OPut k v \/ (o = OHasOrAdd k v /\ cache_has k c0 = false)) ->
+  Forall (keeps k) ops2 ->
+  insertions_in (route n k) (step_cache c0 o) ops2 <= shard_size sz n - 2 ->
+  cache_has k (run (step_cache c0 o) ops2) = true.
+Proof.
+  intros Hv Hne1 Hne2 Hk c0 Ho Hkeep Hins.
+  assert (Hc0 : cache_inv sz n c0) by (apply run_inv; [apply new_cache_inv; exact Hv|exact Hne1]).
+  assert (Hone : op_nonempty o) by (destruct Ho as [->|[-> _]]; exact Hk).
+  assert (Hc1 : cache_inv sz n (step_cache c0 o)) by (apply step_inv; assumption).
+  eapply resid_has; [apply run_inv; [exact Hc1|exact Hne2]|exact Hk|].
+  apply (resid_run sz n k ops2 Hk _ 0 Hc1 Hne2 Hkeep).
+  - eapply resid_after_insert; eauto.
+  - exact Hins.
+Qed.
+
+Lemma residency_cache_wide sz n ops1 o k v ops2 : valid_cfg sz n ->
+  Forall op_nonempty ops1 -> Forall op_nonempty ops2 -> k <> [] ->
+  let c0 := run (new_cache sz n) ops1 in
+  (o = OPut k v \/ (o = OHasOrAdd k v /\ cache_has k c0 = false)) ->
+  Forall (keeps k) ops2 ->
+  insertions (step_cache c0 o) ops2 <= (sz + n - 1) / n - 2 ->
+  cache_has k (run (step_cache c0 o) ops2) = true.
+Proof.
+  intros Hv Hne1 Hne2 Hk c0 Ho Hkeep Hins.
+  apply (residency sz n ops1 o k v ops2 Hv Hne1 Hne2 Hk Ho Hkeep).
+  destruct Hv as [Hn Hsz]. rewrite shard_size_ceil by lia.
+  pose proof (insertions_in_le (route n k) ops2 (step_cache c0 o)) as Hle.
+  fold c0. lia.
+Qed.
+
+(** * Clear empties the cache *)
+Lemma clear_views m ks : (forall k, In k ks -> k <> []) ->
+  forall c, cmap_inv m c ->
+  views (fold_left (fun m' k => cmap_remove k m') ks c) =
+  map (fun q => fold_left (fun q' k => blank k q') ks q) (views c).
+Proof.
+  induction ks as [|k ks IH]; intros Hks c H; cbn [fold_left].
+  - symmetry. apply map_id.
+  - rewrite IH.
+    + rewrite (views_remove_map m) by (try exact H; apply Hks; left; reflexivity).
+      rewrite map_map. reflexivity.
+    + intros k' Hk'. apply Hks. right. exact Hk'.
+    + apply cmap_remove_inv. exact H.
+Qed.
+
+Lemma blank_fold_in (ks : list key) : forall (q : list key) x,
+  In x (fold_left (fun q' k => blank k q') ks q) -> x = [] \/ (In x q /\ ~ In x ks).
+Proof.
+  induction ks as [|k ks IH]; intros q x Hin; cbn [fold_left] in Hin; [right; split; [exact Hin|intros []]|].
+  destruct (IH _ _ Hin) as [->|[Hin' Hnk]]; [left; reflexivity|].
+  unfold blank in Hin'. apply in_map_iff in Hin'. destruct Hin' as (y & Hy & Hyq).
+  destruct (beqb_spec y k) as [E|Hne]; [left; congruence|].
+  rewrite Hy in *. right. split; [exact Hyq|]. intros [E|E]; [congruence|tauto].
+Qed.
+
+Lemma nonblank_nil (l : list key) : (forall x, In x l -> x = []) -> nonblank l = [].
+Proof.
+  induction l as [|x l IH]; intros H; [reflexivity|]. rewrite nonblank_cons.
+  rewrite (H x) by (left; reflexivity). cbn [is_empty]. apply IH. intros y Hy. apply H. right. exact Hy.
+Qed.
+
+Lemma clear_empties sz n c : cache_inv sz n c ->
+  cache_keys (step_cache c OClear) = [] /\ cache_len (step_cache c OClear) = 0.
+Proof.
+  intros Hc. assert (Hc' : cache_inv sz n (step_cache c OClear)) by (apply step_inv; [exact Hc|exact I]).
+  destruct (views_agree sz n _ Hc') as (_ & _ & Hlen & _).
+  assert (Hk : cache_keys (step_cache c OClear) = []); [|split; [exact Hk|rewrite Hlen, Hk; reflexivity]].
+  destruct (cache_keys_views sz n _ Hc') as [_ ->].
+  pose proof (cv_cm _ _ _ Hc) as Hcm.
+  unfold step_cache. cbn [step fst cm]. unfold cmap_clear. rewrite (cmap_keys_views _ _ Hcm).
+  rewrite (clear_views _ _ (fun k Hin => proj1 (proj1 (in_all_nonblank _ _ k Hcm) Hin)) _ Hcm).
+  unfold all_nonblank at 1. rewrite map_map.
+  assert (Hall : forall q, In q (views (cm c)) ->
+            nonblank (fold_left (fun q' k => blank k q') (all_nonblank (views (cm c))) q) = []).
+  { intros q Hq. apply nonblank_nil. intros x Hx. destruct (blank_fold_in _ _ _ Hx) as [E|[Hxq Hnin]]; [exact E|].
+    destruct x as [|b x]; [reflexivity|]. exfalso. apply Hnin.
+    unfold all_nonblank. apply in_concat. exists (nonblank q). split; [apply in_map; exact Hq|].
+    apply nonblank_in. split; [exact Hxq|discriminate]. }
+  revert Hall. generalize (all_nonblank (views (cm c))) as ks. generalize (views (cm c)) as qs.
+  induction qs as [|q qs IH]; intros ks Hall; [reflexivity|].
+  cbn [map concat]. rewrite Hall by (left; reflexivity). cbn [app]. apply IH.
+  intros q' Hq'. apply Hall. right. exact Hq'.
+Qed.
+
+(** * one shard: the cache is a FIFO list *)
+
+
+Lemma nonblank_tl (l : list key) : nonblank (tl l) = nonblank l \/ nonblank (tl l) = tl (nonblank l).
+Proof.
+  destruct l as [|x l]; [left; reflexivity|]. cbn [tl]. rewrite nonblank_cons.
+  destruct (is_empty x); [left|right]; reflexivity.
+Qed.
+
+Lemma one_shard_views sz c : cache_inv sz 1 c ->
+  exists q, views (cm c) = [q] /\ (forall k, qat (cm c) k = q) /\ cache_keys c = nonblank q /\
+            forall k, route (shardCount (cm c)) k = 0.
+Proof.
+  intros Hc. pose proof (cv_cm _ _ _ Hc) as Hcm. pose proof (cv_n _ _ _ Hc) as Hn.
+  assert (Hr : forall k, route (shardCount (cm c)) k = 0).
+  { intros k. rewrite Hn. pose proof (route_lt 1 k (le_n 1)). lia. }
+  pose proof (views_length (cm c)) as Hl. rewrite (ci_len _ _ Hcm), Hn in Hl.
+  destruct (views (cm c)) as [|q [|q' qs]] eqn:Ev; cbn [length] in Hl; try lia.
+  exists q. repeat split; auto.
+  - intros k. rewrite qat_views, Hr, Ev. reflexivity.
+  - destruct (cache_keys_views sz 1 c Hc) as [_ ->]. rewrite Ev. unfold all_nonblank. cbn. apply app_nil_r.
+Qed.
+
+Lemma nonblank_snoc (l : list key) (k : key) : k <> [] -> nonblank (l ++ [k]) = nonblank l ++ [k].
+Proof. intros Hk. rewrite nonblank_app. cbn. rewrite (is_empty_false k Hk). reflexivity. Qed.
+
+Lemma fifo_one_shard sz c o : 2 <= sz -> cache_inv sz 1 c -> op_nonempty o ->
+  fifo_next (cache_keys c) o (cache_keys (step_cache c o)).
+Proof.
+  intros Hsz Hc Hne.
+  assert (Hc' : cache_inv sz 1 (step_cache c o)) by (apply step_inv; assumption).
+  pose proof (cv_cm _ _ _ Hc) as Hcm.
+  destruct (one_shard_views sz c Hc) as (q & Hv & Hq & Hkeys & Hr).
+  destruct (one_shard_views sz _ Hc') as (q' & Hv' & _ & Hkeys' & _).
+  rewrite Hkeys, Hkeys'.
+  destruct o as [k v|k v|k|k|k|k| |id tag|id]; cbn [fifo_next];
+    try (unfold step_cache in Hv'; cbn [step fst cm] in Hv'; rewrite Hv in Hv'; inversion Hv'; reflexivity).
+  - (* Put *)
+    cbn [op_nonempty op_key] in Hne.
+    unfold step_cache in Hv'. cbn [step fst cm] in Hv'.
+    rewrite (views_set _ _ k v Hcm Hne), Hq, Hr, Hv in Hv'. cbn [set_nth] in Hv'. inversion Hv'; subst q'.
+    unfold q_set, q_push. rewrite (nonblank_snoc _ k Hne).
+    unfold rm. rewrite <- nonblank_blank.
+    destruct (nonblank_tl (blank k q)) as [E|E]; rewrite E; [left|right]; reflexivity.
+  - (* HasOrAdd *)
+    cbn [op_nonempty op_key] in Hne.
+    destruct (views_agree sz 1 c Hc) as (_ & _ & _ & _ & _ & Hin & _). rewrite Hkeys in Hin.
+    split; intros Hk.
+    + apply (Hin k Hne) in Hk. destruct (hasoradd_spec sz 1 c k v Hc Hne) as [Hsame _].
+      unfold step_cache in Hv'. rewrite (Hsame Hk) in Hv'. cbn [fst] in Hv'. rewrite Hv in Hv'.
+      inversion Hv'. reflexivity.
+    + assert (Hh : cache_has k c = false).
+      { destruct (cache_has k c) eqn:E; [|reflexivity]. exfalso. apply Hk. apply (Hin k Hne). exact E. }
+      destruct (views_set_if_absent _ (cm c) k v Hcm) as [_ Ha]. destruct (Ha Hh) as [_ Hvs].
+      rewrite step_cache_hasoradd_cm, Hvs, Hq, Hr, Hv in Hv'. cbn [set_nth] in Hv'. inversion Hv'; subst q'.
+      unfold q_push. rewrite (nonblank_snoc _ k Hne).
+      destruct (nonblank_tl q) as [E|E]; rewrite E; [left|right]; reflexivity.
+  - (* Remove *)
+    unfold step_cache in Hv'. cbn [step fst cm] in Hv'.
+    rewrite (views_remove _ _ k Hcm), Hq, Hr, Hv in Hv'. cbn [set_nth] in Hv'. inversion Hv'; subst q'.
+    unfold rm. apply nonblank_blank.
+  - (* Clear *)
+    rewrite <- Hkeys'. apply (clear_empties sz 1 c Hc).
+Qed.
+
+(** * the statements of Props/C20.v, over all histories from [new_cache] *)
+Lemma init_inv sz n ops : valid_cfg sz n -> Forall op_nonempty ops -> cache_inv sz n (run (new_cache sz n) ops).
+Proof. intros Hv Hne. apply run_inv; [apply new_cache_inv; exact Hv|exact Hne]. Qed.
+
+Lemma thm_ring_invariant sz n ops : valid_cfg sz n -> Forall op_nonempty ops ->
+  forall s, In s (shards (cm (run (new_cache sz n) ops))) ->
+    maxSize s = shard_size sz n /\ length (mapKeys s) = maxSize s /\
+    nth_error (mapKeys s) (idxAdd s) = Some [] /\
+    NoDup (map fst (items s)) /\ NoDup (nonblank (mapKeys s)) /\
+    aget [] (items s) = None /\
+    forall k i, k <> [] -> (nth_error (mapKeys s) i = Some k <-> exists v, aget k (items s) = Some (v, i)).
+Proof.
+  intros Hv Hne s Hin. pose proof (cv_cm _ _ _ (init_inv sz n ops Hv Hne)) as Hcm.
+  apply In_nth_error in Hin. destruct Hin as [i Hi].
+  destruct (ci_shards _ _ Hcm i s Hi) as [Hs Hm].
+  destruct (inv_bij _ Hs) as [H0 Hb].
+  split; [exact Hm|]. split; [apply (inv_len _ Hs)|]. split; [apply (inv_idx _ Hs)|].
+  split; [apply (inv_nodup _ Hs)|]. split; [apply ring_nodup; exact Hs|].
+  split; [exact H0|exact Hb].
+Qed.
+
+Lemma thm_bound sz n ops : valid_cfg sz n -> Forall op_nonempty ops ->
+  cache_len (run (new_cache sz n) ops) <= n * ((sz + n - 1) / n - 1) /\
+  n * ((sz + n - 1) / n - 1) <= sz.
+Proof.
+  intros Hv Hne. destruct (cache_len_bound sz n _ Hv (init_inv sz n ops Hv Hne)) as (H1 & H2 & H3).
+  rewrite <- H3. auto.
+Qed.
+
+Lemma thm_just_inserted sz n ops k v : valid_cfg sz n -> Forall op_nonempty ops -> k <> [] ->
+  let c := run (new_cache sz n) ops in
+  (cache_has k (step_cache c (OPut k v)) = true /\ cache_get k (step_cache c (OPut k v)) = Some v) /\
+  (cache_has k c = false ->
+   cache_has k (step_cache c (OHasOrAdd k v)) = true /\ cache_get k (step_cache c (OHasOrAdd k v)) = Some v).
+Proof.
+  intros Hv Hne Hk c. pose proof (init_inv sz n ops Hv Hne) as Hc. fold c in Hc. split.
+  - unfold step_cache, cache_has, cache_get. cbn [step fst cm]. eapply put_present; [apply (cv_cm _ _ _ Hc)|exact Hk].
+  - intros Hh. destruct (hasoradd_spec sz n c k v Hc Hk) as [_ Ha]. destruct (Ha Hh) as (_ & _ & H1 & H2). auto.
+Qed.
+
+Lemma thm_views sz n ops : valid_cfg sz n -> Forall op_nonempty ops ->
+  let c := run (new_cache sz n) ops in
+  cmap_keys (cm c) = Some (cache_keys c) /\
+  NoDup (cache_keys c) /\
+  cache_len c = length (cache_keys c) /\
+  (forall k, In k (cache_keys c) -> k <> []) /\
+  (forall k, cache_has k c = true <-> cache_get k c <> None) /\
+  (forall k, k <> [] -> (cache_has k c = true <-> In k (cache_keys c))) /\
+  (forall k, snd (fst (step c (OPeek k))) = RGet (cache_get k c) /\
+             snd (fst (step c (OGet k))) = RGet (cache_get k c) /\
+             snd (fst (step c (OHas k))) = RHas (cache_has k c) /\
+             step_cache c (OPeek k) = c /\ step_cache c (OGet k) = c /\ step_cache c (OHas k) = c).
+Proof. intros Hv Hne c. apply (views_agree sz n). apply init_inv; assumption. Qed.
+
+Lemma thm_hasoradd sz n ops k v : valid_cfg sz n -> Forall op_nonempty ops -> k <> [] ->
+  let c := run (new_cache sz n) ops in
+  (cache_has k c = true -> step c (OHasOrAdd k v) = (c, RHasOrAdd true false, [])) /\
+  (cache_has k c = false ->
+     snd (fst (step c (OHasOrAdd k v))) = RHasOrAdd false true /\
+     snd (step c (OHasOrAdd k v)) = call_handlers c k v /\
+     cache_has k (step_cache c (OHasOrAdd k v)) = true /\
+     cache_get k (step_cache c (OHasOrAdd k v)) = Some v).
+Proof. intros Hv Hne Hk c. apply (hasoradd_spec sz n); [apply init_inv; assumption|exact Hk]. Qed.
+
+Lemma thm_handlers sz n ops o : valid_cfg sz n -> Forall op_nonempty ops -> op_nonempty o ->
+  let c := run (new_cache sz n) ops in
+  NoDup (map fst (handlers c)) /\
+  (inserts c o = false -> snd (step c o) = []) /\
+  (inserts c o = true -> exists k v, (o = OPut k v \/ o = OHasOrAdd k v) /\
+     snd (step c o) = map (fun h => (fst h, snd h, k, v)) (handlers c) /\
+     forall id, filter (fun x => beqb (call_id x) id) (snd (step c o)) =
+                match aget id (handlers c) with Some tag => [(id, tag, k, v)] | None => [] end).
+Proof. intros Hv Hne Ho c. apply (handlers_spec sz n); [apply init_inv; assumption|exact Ho]. Qed.
+
+Lemma thm_fifo_one_shard sz ops o : 2 <= sz -> Forall op_nonempty ops -> op_nonempty o ->
+  fifo_next (cache_keys (run (new_cache sz 1) ops)) o (cache_keys (run (new_cache sz 1) (ops ++ [o]))).
+Proof.
+  intros Hsz Hne Ho. rewrite run_app. cbn [run fold_left].
+  apply (fifo_one_shard sz); auto. apply init_inv; [split; lia|exact Hne].
+Qed.
+
+Lemma thm_clear sz n ops : valid_cfg sz n -> Forall op_nonempty ops ->
+  let c := step_cache (run (new_cache sz n) ops) OClear in
+  cache_keys c = [] /\ cache_len c = 0 /\ forall k, k <> [] -> cache_has k c = false.
+Proof.
+  intros Hv Hne c. pose proof (init_inv sz n ops Hv Hne) as Hc0.
+  destruct (clear_empties sz n _ Hc0) as [Hk Hl]. fold c in Hk, Hl. split; [exact Hk|]. split; [exact Hl|].
+  intros k Hkne. assert (Hc : cache_inv sz n c) by (apply step_inv; [exact Hc0|exact I]).
+  destruct (views_agree sz n c Hc) as (_ & _ & _ & _ & _ & Hin & _).
+  destruct (cache_has k c) eqn:E; [|reflexivity]. apply (Hin k Hkne) in E. rewrite Hk in E. destruct E.
+Qed.
+
+Lemma thm_shard_size sz n : 1 <= n -> 2 * n <= sz ->
+  shard_size sz n = (sz + n - 1) / n /\ 2 <= shard_size sz n.
+Proof. intros Hn Hsz. split; [apply shard_size_ceil; lia|apply shard_size_ge2; assumption]. Qed.
